@@ -123,6 +123,18 @@ func Load(dir string, overlay map[string][]byte) (*Prog, error) {
 	}
 	sort.Slice(pkgs, func(i, j int) bool { return pkgs[i].PkgPath < pkgs[j].PkgPath })
 	p.Roots = pkgs
+	if os.Getenv("SIALINT_NODETEMP") == "" {
+		// canonical spelling: no variables that merely name an intermediate value
+		for _, pkg := range pkgs {
+			for _, file := range pkg.Syntax {
+				for _, d := range file.Decls {
+					if fd, ok := d.(*ast.FuncDecl); ok && fd.Body != nil {
+						p.detemp(pkg.TypesInfo, fd.Body)
+					}
+				}
+			}
+		}
+	}
 	for _, pkg := range pkgs {
 		p.indexPkg(pkg, true)
 	}
